@@ -491,6 +491,28 @@ def Pat.deferredOK (p : Pat) : Bool :=
 /-- the fragment of the extended C01 theorem -/
 def Pat.inFragmentK (p : Pat) : Bool := p.inFragment || p.deferredOK
 
+/-! ### shapes the model mirrors but on which the code violates C01 (known findings) -/
+
+/-- one `all` step, neither first nor last, with a self-referencing filter (enumeration at completion);
+unlike `deferredOK`, later filters / `.not` clauses may mention the Kleene alias -/
+def Pat.shapeA (p : Pat) : Bool :=
+  match p.deferredStep with
+  | some (i, _, _) => decide (0 < i) && (p.steps.filter (·.kleene)).length == 1 && p.lastPlainB
+  | none => false
+
+/-- guard of C01-enum-later-ref: a filter of a step after the enumerated `all` step, or a `.not` clause,
+mentions the Kleene alias (the engine evaluated it against the last *accumulated* event, not against the last
+event of the reported combination), or the enumerated filter mentions a later alias -/
+def Pat.laterRefsKleene (p : Pat) : Bool := p.shapeA && !p.deferredOK
+
+/-- guard of C01-late-selfref-all: a self-referencing `all` filter on a non-last step that is not the first
+`all` step — the capture already exists without `deferred_predicate`, so the filter is never evaluated -/
+def Pat.lateSelfRef (p : Pat) : Bool :=
+  !p.inFragment && p.deferredStep.isNone && p.lastPlainB
+
+/-- everything the step-level model mirrors -/
+def Pat.modelled (p : Pat) : Bool := p.inFragmentK || p.shapeA || p.lateSelfRef
+
 /-! ## NFA level — `NfaCompiler::compile` and the generic interpreter `advance_run_shared`
 
 The step-level functions above are this interpreter specialised to the NFA that `compile` builds for a
